@@ -610,12 +610,14 @@ impl NdKey {
 }
 impl Clone for NdKey {
     fn clone(&self) -> Self {
+        fault::tick(Cb::KClone);
         ND_KCLONES.with(|c| c.set(c.get() + 1));
         NdKey { class: self.class, tag: self.tag, serial: nd_next() }
     }
 }
 impl PartialEq for NdKey {
     fn eq(&self, o: &Self) -> bool {
+        fault::tick(Cb::KEq);
         self.class == o.class
     }
 }
@@ -649,6 +651,7 @@ impl NdVal {
 }
 impl Clone for NdVal {
     fn clone(&self) -> Self {
+        fault::tick(Cb::VClone);
         ND_VCLONES.with(|c| c.set(c.get() + 1));
         NdVal { payload: self.payload, serial: nd_next() }
     }
